@@ -350,8 +350,11 @@ def rule_resets() -> List[Dict[str, Any]]:
                 if d is not None:
                     ok, why2 = check_disposition(cf, f, d)
                     why = f"disposition {d['kind']}: {why2}"
-            out.append({"name": name, "ok": ok, "info": f"{cf.rel}: field {f} (written per file at {sites[0][0]}@{sites[0][1]}) is reset by starting_new_file",
-                        "detail": why})
+            rec = {"name": name, "ok": ok, "info": f"{cf.rel}: field {f} (written per file at {sites[0][0]}@{sites[0][1]}) is reset by starting_new_file",
+                   "detail": why}
+            if not ok:
+                rec["replay"] = replay_reset(cf, f)
+            out.append(rec)
     return out
 
 
@@ -385,4 +388,363 @@ def helper_resets() -> List[Dict[str, Any]]:
                     why = "helper is re-created by every owner's starting_new_file" if ok else why
             out.append({"name": f"structural::C13::rel.{cf.name}.{f}", "ok": ok,
                         "info": f"{cf.rel}: helper field {f} is reset between files", "detail": why})
+    return out
+
+
+def replay_reset(cf: ClassFacts, f: str) -> Dict[str, Any]:
+    """Native replay of a failed rel.<Class>.<field>: two real instances with equal configuration, the field set to two
+    different values (as two different earlier files would leave it), the real starting_new_file, compare."""
+    import subprocess
+    import sys
+    import tempfile
+
+    mod = cf.rel[:-3].replace("/", ".")
+    mangled = front.mangle(f, cf.name)
+    _, config_fields, _, _ = class_facts(cf)
+    cfg = sorted(front.mangle(x, cf.name) for x in config_fields)
+    code = f"""
+import sys
+sys.path.insert(0, {front.REPO_ROOT!r})
+import importlib
+m = importlib.import_module({mod!r})
+C = getattr(m, {cf.name!r})
+consts = [v for k, v in vars(C).items() if isinstance(v, str) and not k.startswith('__') and not callable(v)]
+configs = [None] + [(fld, v) for fld in {cfg!r} for v in consts]
+worst = 0
+for cfgchoice in configs:
+    a, b = C(), C()
+    for o, v in ((a, 'left-by-file-A'), (b, 'left-by-file-B')):
+        if cfgchoice is not None and isinstance(getattr(o, cfgchoice[0], None), str):
+            setattr(o, cfgchoice[0], cfgchoice[1])        # equal configuration on both instances
+        old = getattr(o, {mangled!r}, None)
+        if isinstance(old, bool): v = (v == 'left-by-file-A')
+        elif isinstance(old, int): v = 1 if v == 'left-by-file-A' else 2
+        elif isinstance(old, list): v = [v]
+        elif isinstance(old, dict): v = {{v: 1}}
+        elif isinstance(old, set): v = {{v}}
+        setattr(o, {mangled!r}, v)
+    for o in (a, b):
+        try:
+            o.starting_new_file()
+        except Exception as e:
+            print('starting_new_file raised', type(e).__name__)
+    va, vb = getattr(a, {mangled!r}), getattr(b, {mangled!r})
+    if va != vb:
+        print('configuration', cfgchoice, ': after starting_new_file the field still differs:', repr(va), '|', repr(vb))
+        worst = 1
+        break
+if not worst:
+    print('no configuration tried made the two instances differ')
+sys.exit(worst)
+"""
+    try:
+        with tempfile.NamedTemporaryFile("wt", suffix=".py", delete=False) as fh:
+            fh.write(code)
+            path = fh.name
+        py = "/venv/bin/python" if os.path.exists("/venv/bin/python") else sys.executable
+        p = subprocess.run([py, path], capture_output=True, text=True, timeout=60)
+        os.remove(path)
+        return {"reproduced": p.returncode == 1, "observed": (p.stdout + p.stderr)[-500:],
+                "how": f"two fresh {cf.name} instances, field {mangled} set to two different values, real starting_new_file() called on both, values compared",
+                "script": code}
+    except Exception as e:  # replay is best effort
+        return {"reproduced": False, "reason": f"{type(e).__name__}: {e}"}
+
+
+# ------------------------------------------------------------------------------------------------ C12: frames of the rules
+TOKEN_MUTATORS_CACHE: Optional[Set[str]] = None
+CONTEXT_API = {"add_triggered_rule", "register_fix_token_request", "register_replace_tokens_request", "set_current_fix_line",
+               "get_fix_token_map", "get_replace_tokens_list"}
+CONTEXT_READS = {"in_fix_mode", "scan_file", "line_number", "is_during_line_pass", "last_line_fixed", "current_fix_line"}
+FRESH_METHODS = {"split", "rsplit", "splitlines", "copy", "strip", "lstrip", "rstrip", "lower", "upper", "replace", "join", "format",
+                 "keys", "values", "items", "title", "capitalize"}
+FRESH_CALLS = {"copy.deepcopy", "copy.copy", "deepcopy", "list", "dict", "set", "tuple", "sorted", "str", "int"}
+
+
+def token_mutators() -> Set[str]:
+    """methods of the token classes (pymarkdown/tokens, extensions/*token*) that assign to self.* (transitively via self calls)"""
+    global TOKEN_MUTATORS_CACHE
+    if TOKEN_MUTATORS_CACHE is not None:
+        return TOKEN_MUTATORS_CACHE
+    direct: Dict[str, Set[str]] = {}
+    calls: Dict[str, Set[str]] = {}
+    for rel, full in list(py_files("pymarkdown/tokens")) + [x for x in py_files("pymarkdown/extensions") if "token" in x[0]]:
+        for n in parse(full).body:
+            if isinstance(n, ast.ClassDef):
+                for m in n.body:
+                    if isinstance(m, ast.FunctionDef) and m.name != "__init__":
+                        w = False
+                        for x in ast.walk(m):
+                            if isinstance(x, ast.Attribute) and isinstance(x.ctx, (ast.Store, ast.Del)) and isinstance(x.value, ast.Name) and x.value.id == "self":
+                                w = True
+                            if isinstance(x, ast.Call) and isinstance(x.func, ast.Attribute) and x.func.attr in MUTATORS \
+                                    and isinstance(x.func.value, ast.Attribute) and isinstance(x.func.value.value, ast.Name) and x.func.value.value.id == "self":
+                                w = True
+                            if isinstance(x, ast.Call) and isinstance(x.func, ast.Attribute) and isinstance(x.func.value, ast.Name) and x.func.value.id == "self":
+                                calls.setdefault(m.name, set()).add(x.func.attr)
+                        if w:
+                            direct.setdefault(m.name, set()).add(n.name)
+    mut = set(direct)
+    changed = True
+    while changed:
+        changed = False
+        for m, cs in calls.items():
+            if m not in mut and cs & mut:
+                mut.add(m)
+                changed = True
+    TOKEN_MUTATORS_CACHE = mut
+    return mut
+
+
+def root_name(e: ast.AST) -> Optional[str]:
+    while isinstance(e, (ast.Attribute, ast.Subscript)):
+        e = e.value
+    if isinstance(e, ast.Call):
+        return None
+    return e.id if isinstance(e, ast.Name) else None
+
+
+def is_fresh_expr(v: ast.expr, owned: Set[str]) -> bool:
+    """value is a newly created object (constructor, copy, literal, comprehension) or derived from an owned local / self"""
+    if isinstance(v, (ast.List, ast.Dict, ast.Set, ast.Tuple, ast.ListComp, ast.DictComp, ast.SetComp, ast.Constant, ast.JoinedStr)):
+        return True
+    if isinstance(v, ast.Subscript) and isinstance(v.slice, ast.Slice):
+        return True  # a slice is a new list / str
+    if isinstance(v, ast.BinOp):
+        return True  # + / % build new objects (lists, strings, ints)
+    if isinstance(v, ast.IfExp):
+        return is_fresh_expr(v.body, owned) and is_fresh_expr(v.orelse, owned)
+    if isinstance(v, ast.Call) and isinstance(v.func, ast.Name) and v.func.id == "cast" and len(v.args) == 2:
+        return is_fresh_expr(v.args[1], owned)
+    if isinstance(v, ast.Call):
+        fn = ast.unparse(v.func)
+        if isinstance(v.func, ast.Attribute) and v.func.attr in FRESH_METHODS:
+            return True
+        if fn in FRESH_CALLS or (isinstance(v.func, ast.Name) and v.func.id[:1].isupper()):
+            return True
+        if isinstance(v.func, ast.Attribute) and isinstance(v.func.value, ast.Name) and v.func.value.id[:1].isupper():
+            return True  # Class.factory(...)
+        r = root_name(v.func)
+        return r == "self" or r in owned
+    r = root_name(v)
+    return r == "self" or r in owned
+
+
+_OWNED_PARAMS: Dict[str, Dict[str, Set[str]]] = {}
+
+
+def local_ownership(m: ast.FunctionDef, owned0: Set[str]) -> Set[str]:
+    owned = set(owned0)
+    for n in ast.walk(m):
+        if isinstance(n, ast.Assign) and len(n.targets) == 1 and isinstance(n.targets[0], ast.Name):
+            if is_fresh_expr(n.value, owned):
+                owned.add(n.targets[0].id)
+        elif isinstance(n, (ast.AnnAssign, ast.NamedExpr)) and isinstance(n.target, ast.Name) and n.value is not None:
+            if is_fresh_expr(n.value, owned):
+                owned.add(n.target.id)
+    return owned
+
+
+def owned_params(cf: ClassFacts) -> Dict[str, Set[str]]:
+    """private-method parameters that receive a freshly created (owned) object at every call site inside the class"""
+    if cf.name in _OWNED_PARAMS and not os.environ.get("PYVC_NOCACHE"):
+        return _OWNED_PARAMS[cf.name]
+    res: Dict[str, Set[str]] = {}
+    for _ in range(4):  # small fixpoint
+        changed = False
+        for mname, m in cf.methods.items():
+            if not mname.startswith("_") or mname.startswith("__init__"):
+                continue
+            params = [a.arg for a in m.args.posonlyargs + m.args.args + m.args.kwonlyargs if a.arg != "self"]
+            sites = []
+            for oname, om in cf.methods.items():
+                for n in ast.walk(om):
+                    if isinstance(n, ast.Call) and isinstance(n.func, ast.Attribute) and isinstance(n.func.value, ast.Name) \
+                            and n.func.value.id == "self" and n.func.attr == mname:
+                        sites.append((om, n))
+            if not sites:
+                continue
+            good = set()
+            for i, p_ in enumerate(params):
+                if p_ in ("token", "context"):
+                    continue
+                ok = True
+                for om, call in sites:
+                    owned_there = local_ownership(om, res.get(om.name, set()))
+                    arg = call.args[i] if i < len(call.args) else next((k.value for k in call.keywords if k.arg == p_), None)
+                    if arg is None or not is_fresh_expr(arg, owned_there):
+                        ok = False
+                if ok:
+                    good.add(p_)
+            if good != res.get(mname, set()):
+                res[mname] = good
+                changed = True
+        if not changed:
+            break
+    _OWNED_PARAMS[cf.name] = res
+    return res
+
+
+def method_frame_violations(cf: ClassFacts, m: ast.FunctionDef) -> List[Tuple[int, str]]:
+    params = [a.arg for a in m.args.posonlyargs + m.args.args + m.args.kwonlyargs]
+    owned: Set[str] = set(owned_params(cf).get(m.name, set()))
+    foreign = set(p for p in params if p != "self" and p not in owned)
+    bad: List[Tuple[int, str]] = []
+    muts = token_mutators()
+
+    # one forward pass over assignments (flow-insensitive but order-aware for simple rebinding)
+    for n in ast.walk(m):
+        if isinstance(n, ast.Assign) and len(n.targets) == 1 and isinstance(n.targets[0], ast.Name):
+            name = n.targets[0].id
+            if is_fresh_expr(n.value, owned):
+                owned.add(name)
+                foreign.discard(name)
+            else:
+                foreign.add(name)
+        elif isinstance(n, (ast.AnnAssign, ast.NamedExpr)) and isinstance(n.target, ast.Name) and n.value is not None:
+            if is_fresh_expr(n.value, owned):
+                owned.add(n.target.id)
+            else:
+                foreign.add(n.target.id)
+        elif isinstance(n, (ast.For, ast.comprehension)):
+            for t in ast.walk(n.target):
+                if isinstance(t, ast.Name):
+                    (owned if is_fresh_expr(n.iter, owned) else foreign).add(t.id)
+
+    def check_target(t: ast.AST, line: int, what: str):
+        if isinstance(t, ast.Name):
+            return
+        r = root_name(t)
+        if r is None:
+            bad.append((line, f"{what} through a call result: {ast.unparse(t)[:60]}"))
+        elif r == "self" or r in owned and r not in ("token", "context"):
+            return
+        elif r in ("cls",) or r[:1].isupper():
+            bad.append((line, f"{what} of class-level state {ast.unparse(t)[:60]}"))
+        else:
+            bad.append((line, f"{what} of foreign object {ast.unparse(t)[:60]} (root `{r}`)"))
+
+    for n in ast.walk(m):
+        if isinstance(n, (ast.Global, ast.Nonlocal)):
+            bad.append((n.lineno, "global/nonlocal"))
+        elif isinstance(n, ast.Assign):
+            for t in n.targets:
+                for e in (t.elts if isinstance(t, (ast.Tuple, ast.List)) else [t]):
+                    if isinstance(e, (ast.Attribute, ast.Subscript)):
+                        check_target(e, n.lineno, "store")
+        elif isinstance(n, (ast.AugAssign, ast.AnnAssign)) and isinstance(n.target, (ast.Attribute, ast.Subscript)):
+            check_target(n.target, n.lineno, "store")
+        elif isinstance(n, ast.Delete):
+            for t in n.targets:
+                if isinstance(t, (ast.Attribute, ast.Subscript)):
+                    check_target(t, n.lineno, "del")
+        elif isinstance(n, ast.Call) and isinstance(n.func, ast.Attribute):
+            recv = n.func.value
+            r = root_name(recv)
+            if n.func.attr in MUTATORS and not isinstance(recv, ast.Name):
+                check_target(recv, n.lineno, f"mutating call .{n.func.attr}()")
+            elif n.func.attr in MUTATORS and isinstance(recv, ast.Name) and recv.id in foreign and recv.id not in owned:
+                bad.append((n.lineno, f"mutating call .{n.func.attr}() on foreign local `{recv.id}`"))
+            elif n.func.attr in muts and n.func.attr not in cf.methods:
+                if not (r == "self" or (r in owned and r not in ("token", "context"))):
+                    bad.append((n.lineno, f"token mutator .{n.func.attr}() on `{ast.unparse(recv)[:40]}` which is not a fresh copy"))
+            elif r == "context" and isinstance(recv, ast.Name):
+                if n.func.attr not in CONTEXT_API:
+                    bad.append((n.lineno, f"context.{n.func.attr}() is not part of the reporting / fix API"))
+    return bad
+
+
+@check("C12")
+def rule_frames():
+    """frame.<Class>.<method>: a rule (or rule helper) writes only its own state: no store / del / mutating call whose root
+    is the delivered token, the context (outside its reporting and fix API), a module global or a class attribute"""
+    out = []
+    for cf in plugin_classes().values():
+        for mname, m in cf.methods.items():
+            bad = method_frame_violations(cf, m)
+            out.append({"name": f"structural::C12::frame.{cf.name}.{mname}", "ok": not bad,
+                        "info": f"{cf.rel}: {cf.name}.{mname} writes only state owned by the rule instance", "detail": "; ".join(f"@{l}: {w}" for l, w in bad)})
+    # module-level mutable state in plugin modules
+    for rel, full in py_files("pymarkdown/plugins"):
+        if os.path.basename(rel) in ("plugin_one.py", "__init__.py"):
+            continue
+        glob = [n.lineno for n in parse(full).body if isinstance(n, (ast.Assign, ast.AnnAssign)) and not
+                (isinstance(getattr(n, "value", None), ast.Constant))]
+        out.append({"name": f"structural::C12::no_module_state[{rel}]", "ok": not glob, "info": "rule modules keep no module-level mutable state",
+                    "detail": f"module-level assignments at lines {glob}"})
+    return out
+
+
+def guarded_by_fix_mode(cf: ClassFacts, mname: str, call: ast.Call, seen=None) -> bool:
+    """the call is inside an `if` whose test mentions in_fix_mode (positively), or every call site of the enclosing method is"""
+    seen = seen or set()
+    if mname in seen:
+        return False
+    seen.add(mname)
+    m = cf.methods[mname]
+
+    def enclosing_ifs(fn, target):
+        path = []
+
+        def walk(node, acc):
+            for ch in ast.iter_child_nodes(node):
+                if ch is target:
+                    path.extend(acc)
+                    return True
+                nacc = acc
+                if isinstance(node, ast.If):
+                    nacc = acc + [(node, ch in node.body or any(ch is x for b in node.body for x in ast.walk(b)))]
+                if walk(ch, nacc):
+                    return True
+            return False
+
+        walk(fn, [])
+        return path
+
+    for ifnode, in_body in enclosing_ifs(m, call):
+        t = ast.unparse(ifnode.test)
+        if "in_fix_mode" in t and in_body and not t.strip().startswith("not "):
+            return True
+    # all call sites of this method inside the class
+    sites = []
+    for oname, om in cf.methods.items():
+        for n in ast.walk(om):
+            if isinstance(n, ast.Call) and isinstance(n.func, ast.Attribute) and isinstance(n.func.value, ast.Name) and n.func.value.id == "self" and n.func.attr == mname:
+                sites.append((oname, n))
+    return bool(sites) and all(guarded_by_fix_mode(cf, o, c, seen) for o, c in sites)
+
+
+@check("C12", "C14")
+def fix_line_only_in_fix_mode():
+    """a rule calls context.set_current_fix_line only on paths where context.in_fix_mode holds (PluginManager.next_line hands a
+    changed line to the following rules without testing the mode; this is the callee-side fact its contract assumes)"""
+    out = []
+    for cf in plugin_classes().values():
+        for mname, m in cf.methods.items():
+            for n in ast.walk(m):
+                if isinstance(n, ast.Call) and isinstance(n.func, ast.Attribute) and n.func.attr == "set_current_fix_line":
+                    ok = guarded_by_fix_mode(cf, mname, n)
+                    out.append({"name": f"structural::C12::fix_line_guard.{cf.name}.{mname}@{n.lineno - m.lineno}", "ok": ok,
+                                "info": fix_line_only_in_fix_mode.__doc__, "detail": f"{cf.rel}:{n.lineno}"})
+    return out
+
+
+@check("C12")
+def helpers_per_instance():
+    """every helper object a rule uses is created by that rule instance (constructor call stored in a self field inside
+    __init__ / starting_new_file); no helper is a module-level or class-level singleton"""
+    out = []
+    helpers = {c.name for c in plugin_classes().values() if not is_rule(c)}
+    for cf in plugin_classes().values():
+        for n in cf.node.body:
+            if isinstance(n, (ast.Assign, ast.AnnAssign)) and isinstance(getattr(n, "value", None), ast.Call):
+                fn = ast.unparse(n.value.func)
+                if fn in helpers:
+                    out.append({"name": f"structural::C12::helper_singleton.{cf.name}@{n.lineno}", "ok": False, "info": helpers_per_instance.__doc__,
+                                "detail": f"class-level helper instance {fn}"})
+        for mname, m in cf.methods.items():
+            for n in ast.walk(m):
+                if isinstance(n, ast.Call) and isinstance(n.func, ast.Name) and n.func.id in helpers:
+                    out.append({"name": f"structural::C12::helper_owner.{cf.name}.{mname}[{n.func.id}]", "ok": True, "info": helpers_per_instance.__doc__,
+                                "detail": f"{cf.rel}:{n.lineno}"})
     return out
